@@ -148,3 +148,38 @@ func H_C18_Unlimited() {
 		vrt.Assert(r0 == 1 && r1 == 1, "waitidle-returned-before-jobs-finished")
 	})
 }
+
+// H_C18_Limit2Small: limit 2; one producer enqueues three jobs in one call, waits for idle;
+// never more than two jobs at once, each exactly once, counts consistent.
+func H_C18_Limit2Small() {
+	var p queueProbe
+	q := conc.NewConcurrentQueue(2)
+	queued, running := q.Enqueue(p.job(0), p.job(1), p.job(2))
+	vrt.Assert(running <= 2 && (queued == 0 || running == 2), "queue-counts-range")
+	vrt.Assert(queued+running >= 0 && queued <= 1, "queue-counts-range")
+	err := q.WaitIdle(context.Background(), nil)
+	vrt.Assert(err == nil, "waitidle-error")
+	var r0, r1, r2, mx int
+	vrt.Atomic(func() { r0, r1, r2, mx = p.runs[0], p.runs[1], p.runs[2], p.maxActive })
+	vrt.Assert(r0 == 1 && r1 == 1 && r2 == 1, "waitidle-returned-before-jobs-finished")
+	vrt.Assert(mx <= 2, "queue-limit-exceeded")
+	queued, running = q.Enqueue()
+	vrt.Assert(queued == 0 && running == 0, "idle-counts-not-zero")
+}
+
+// H_C18_InitialWatch: limit 1 with two initial elements (started by the constructor) and a
+// WatchState observer that watches until the queue is idle.
+func H_C18_InitialWatch() {
+	var p queueProbe
+	q := conc.NewConcurrentQueue(1, p.job(0), p.job(1))
+	err := q.WatchState(context.Background(), nil, func(queued, running int) (bool, error) {
+		vrt.Assert(running >= 0 && running <= 1 && queued >= 0 && (queued == 0 || running == 1), "watchstate-counts")
+		return queued+running != 0, nil
+	})
+	vrt.Assert(err == nil, "watchstate-error")
+	var r0, r1, mx, o0 int
+	vrt.Atomic(func() { r0, r1, mx, o0 = p.runs[0], p.runs[1], p.maxActive, p.order[0] })
+	vrt.Assert(r0 == 1 && r1 == 1, "idle-reported-before-jobs-finished")
+	vrt.Assert(mx <= 1, "queue-limit-exceeded")
+	vrt.Assert(o0 == 0, "limit1-order")
+}
